@@ -98,6 +98,11 @@ func (m *c07Mon) Step(w *sessmc.World, e *sessmc.Event, obs []sessmc.Obs) (rule,
 	if our141 && e.K == "connect" {
 		m.weSent141 = true
 	}
+	// the configured daily reset time passes while connected: we send the resetting Logon ourselves
+	resetTimeFired := e.K == "reset-time" && conn0
+	if resetTimeFired && our141 {
+		m.weSent141 = true
+	}
 
 	// ---- (i) justification of resets and of a transmitted 141=Y
 	logonInLogonState := isIn && inType == "A" && conn0 && !badLogon(w, e, st0)
@@ -111,10 +116,10 @@ func (m *c07Mon) Step(w *sessmc.World, e *sessmc.Event, obs []sessmc.Obs) (rule,
 	j3 := our141 && (flagCond || (logonInLogonState && in141 == "Y"))
 	j4 := cfg.ResetOnLogout && isIn && inType == "5" && conn0
 	j5 := cfg.ResetOnDisconnect && connEnded
-	if resets > 0 && !(j1 || j2 || j3 || j4 || j5) {
+	if resets > 0 && !(j1 || j2 || j3 || j4 || j5 || resetTimeFired) {
 		return "C07/R1-unagreed-reset event=" + evClass(e, inType), fmt.Sprintf("store reset during %s (state %s) although no reset option applies and none was negotiated; counters %d/%d → %d/%d", e.Name, st0, S0, T0, S1, T1)
 	}
-	if our141 && !(flagCond || (logonInLogonState && in141 == "Y")) {
+	if our141 && !(flagCond || (logonInLogonState && in141 == "Y") || resetTimeFired) {
 		return "C07/R2-unsolicited-reset-flag", fmt.Sprintf("Logon sent with ResetSeqNumFlag=Y during %s without configuration or request", e.Name)
 	}
 	if resets == 0 && !connEnded {
@@ -126,6 +131,32 @@ func (m *c07Mon) Step(w *sessmc.World, e *sessmc.Event, obs []sessmc.Obs) (rule,
 
 	// ---- (ii) outcomes
 	switch {
+	case e.K == "reset-time":
+		if !conn0 {
+			if S1 != S0 || T1 != T0 || M1 != M0 {
+				return "C07/R5-reset-time-while-disconnected", fmt.Sprintf("the reset time passed while not connected and changed %d/%d %q → %d/%d %q", S0, T0, M0, S1, T1, M1)
+			}
+			break
+		}
+		// "sent because ... ResetSeqTime applies ... the Logon itself is number 1"
+		if ourLogon == nil || !our141 {
+			return "C07/R5-reset-time-no-reset-logon", fmt.Sprintf("the reset time passed in state %s but no Logon with ResetSeqNumFlag=Y was sent", st0)
+		}
+		if ourLogon.Seq() != 1 {
+			return "C07/R5-reset-logon-number", fmt.Sprintf("resetting Logon numbered %d", ourLogon.Seq())
+		}
+		if S1 != 2 || T1 != 1 {
+			return "C07/R5-counters-after-reset-logon", fmt.Sprintf("after the resetting Logon counters are %d/%d, expected 2/1", S1, T1)
+		}
+	case isIn && inType == "A" && in141 == "Y" && inSeq == 1 && T0 == 1 && weSent141Before && conn0 && st0 != "logon" && w.Cfg.ResetSeqTime:
+		// the peer's echo of our in-session reset: numbering continues from 1 on both sides — no second reset,
+		// no second Logon numbered 1
+		if resets > 0 {
+			return "C07/R5-second-reset-on-echo", fmt.Sprintf("the peer's echo of our resetting Logon reset the store again (counters %d/%d → %d/%d)", S0, T0, S1, T1)
+		}
+		if T1 != 2 {
+			return "C07/R5-target-after-echo", fmt.Sprintf("after the echo (Logon #1) the expected inbound number is %d", T1)
+		}
 	case e.K == "connect" && cfg.Initiator && sn.Connected:
 		wantReset := cfg.ResetOnLogon
 		s, t := S0, T0
@@ -308,6 +339,14 @@ func evClass(e *sessmc.Event, inType string) string {
 	return e.K
 }
 
+func c07AlphabetFor(cfg sessmc.Config) []*sessmc.Event {
+	a := c07Alphabet(cfg.FileDir != "")
+	if cfg.ResetSeqTime {
+		a = append(a, sessmc.EvResetTime())
+	}
+	return a
+}
+
 func c07Alphabet(file bool) []*sessmc.Event {
 	a := []*sessmc.Event{
 		sessmc.EvConnect(), sessmc.EvDisconnect(),
@@ -363,7 +402,7 @@ func init() {
 	register("C07", core.LevelMC, runC07)
 	mk := func() []sessmc.Monitor { return []sessmc.Monitor{&c07Mon{}} }
 	variantDefs["C07/lifecycle"] = func(cfg sessmc.Config) searchSpec {
-		return searchSpec{cfg: cfg, alphabet: c07Alphabet(cfg.FileDir != ""), mons: mk, variant: "C07/lifecycle"}
+		return searchSpec{cfg: cfg, alphabet: c07AlphabetFor(cfg), mons: mk, variant: "C07/lifecycle"}
 	}
 	variantDefs["C07/seqreset"] = func(cfg sessmc.Config) searchSpec {
 		return searchSpec{cfg: cfg, alphabet: c07SeqResetAlphabet(), mons: mk, variant: "C07/seqreset",
@@ -397,6 +436,15 @@ func c07Configs(quick bool) []sessmc.Config {
 			}
 		}
 	}
+	// ResetSeqTime: the daily reset time passes while connected (FIX.4.1+: the reset flag exists)
+	for _, ini := range []bool{false, true} {
+		for _, bs := range []string{"FIX.4.2", "FIX.4.4"} {
+			if quick && bs != "FIX.4.2" {
+				continue
+			}
+			out = append(out, sessmc.Config{Initiator: ini, BeginString: bs, ResetSeqTime: true, InitS: 5, InitT: 7, InitMsgs: []string{"A", "D", "0", "D"}})
+		}
+	}
 	return out
 }
 
@@ -408,7 +456,7 @@ func runC07(c *core.Ctx) {
 	} else {
 		c.SetDeadline(5 * 60e9)
 	}
-	c.SetRule("BFS over connection/logon/logout/reset event sequences on a real session for each (reset-flag combination, role, BeginString, initial counters); reference counter model compared after every event; file-store variant adds engine restarts")
+	c.SetRule("BFS over connection/logon/logout/reset event sequences on a real session for each (reset-flag combination, role, BeginString, initial counters); reference counter model compared after every event; file-store variant adds engine restarts; ResetSeqTime configurations add the event "the daily reset time passes between two ticks of the run loop"")
 	c.Assume("Logon with ResetSeqNumFlag=Y and MsgSeqNum != 1 is outside the statement's domain", "absolute state keys (initial counters are part of the configuration)",
 		"Logout timeout without reply is not judged")
 	cfgs := c07Configs(c.Quick())
